@@ -119,6 +119,9 @@ func commandPattern(n *Node) string {
 	if n.Head > 0 {
 		fmt.Fprintf(&b, " -head %d", n.Head)
 	}
+	if n.Say > 0 {
+		fmt.Fprintf(&b, " -say %d", n.Say)
+	}
 	if n.TouchIn {
 		b.WriteString(" -touchin")
 	}
